@@ -314,6 +314,13 @@ fn matrix(out: &mut Out, r: &mut Rng, chain: u64) {
             init.halted = halted == 1;
             init.ei = ei == 1;
             init.pfx = [0, 0xDD, 0xFD, 0xED][pfx as usize];
+            let busbyte = *r.pick(&[0x00u8, 0xFF, 0xFE, 0x37]);
+            // IM 2: in half of the cases the stack lies on the vector table, so that the two bytes pushed by the
+            // acknowledge are (part of) the word the new PC is read from - the order of the four bus cycles matters
+            if im == 2 && r.chance(1, 2) {
+                let v = ((init.i as u16) << 8) | busbyte as u16;
+                init.sp = v.wrapping_add(r.below(5) as u16);
+            }
             init.apply(&mut cpu);
             let mut bus = RecBus::new(r.below(1 << 20) as u32);
             for (k, v) in bytes.iter().enumerate() {
@@ -321,7 +328,7 @@ fn matrix(out: &mut Out, r: &mut Rng, chain: u64) {
             }
             bus.int = int == 1;
             bus.nmi = nmi == 1;
-            bus.busbyte = *r.pick(&[0x00u8, 0xFF, 0xFE, 0x37]);
+            bus.busbyte = busbyte;
             let tag = format!("M:{name}:{iff1}{iff2}{im}{halted}{ei}{pfx}{int}{nmi}/0");
             record_step(&mut cpu, &mut bus, out, &tag);
             for k in 0..chain {
